@@ -262,11 +262,16 @@ func (g *Generator) generateFlattenFieldMarshal(gf *protogen.GeneratedFile, info
 
 	gf.P("// Flatten field: ", field.Desc.Name())
 	gf.P("if x.", goName, " != nil {")
+	gf.P("// raw holds the child's proto3 JSON form; a child with its own MarshalJSON encodes itself")
+	gf.P("// (annotation composability). encoding/json must not be used on a plain message: it would")
+	gf.P("// write the Go struct tags (snake_case keys, numeric int64, {seconds, nanos} timestamps).")
+	gf.P(`childData := []byte(raw["`, jsonName, `"])`)
 	gf.P(`delete(raw, "`, jsonName, `")`)
-	gf.P("// Use json.Marshal to invoke child's MarshalJSON (annotation composability)")
-	gf.P("childData, childErr := json.Marshal(x.", goName, ")")
-	gf.P("if childErr != nil {")
+	gf.P("var childErr error")
+	gf.P("if childMarshaler, ok := any(x.", goName, ").(json.Marshaler); ok {")
+	gf.P("if childData, childErr = childMarshaler.MarshalJSON(); childErr != nil {")
 	gf.P("return nil, childErr")
+	gf.P("}")
 	gf.P("}")
 	gf.P("var childRaw map[string]json.RawMessage")
 	gf.P("if childErr = json.Unmarshal(childData, &childRaw); childErr != nil {")
@@ -362,8 +367,14 @@ func (g *Generator) generateFlattenFieldUnmarshal(gf *protogen.GeneratedFile, in
 	gf.P("return childErr")
 	gf.P("}")
 	gf.P("flat", goName, " = &", childTypeName, "{}")
-	gf.P("// Use json.Unmarshal to invoke child's UnmarshalJSON (annotation composability)")
-	gf.P("if childErr = json.Unmarshal(childData, flat", goName, "); childErr != nil {")
+	gf.P("// A child with its own UnmarshalJSON decodes itself (annotation composability); a plain")
+	gf.P("// message is decoded by protojson, never by encoding/json (Go struct tags are not proto3 JSON)")
+	gf.P("if childUnmarshaler, ok := any(flat", goName, ").(json.Unmarshaler); ok {")
+	gf.P("childErr = childUnmarshaler.UnmarshalJSON(childData)")
+	gf.P("} else {")
+	gf.P("childErr = protojson.Unmarshal(childData, flat", goName, ")")
+	gf.P("}")
+	gf.P("if childErr != nil {")
 	gf.P("return childErr")
 	gf.P("}")
 	gf.P("}")
